@@ -21,7 +21,7 @@ from valida.datapath import MapValue, ListValue, MapOrListValue
 
 META = {
     "rule": "H: every sequence of <= depth operations from the operation menu on one shared world (2 schemas with "
-            "6 rules, their conditions/paths/parts, 3 documents); executions are histories, none merged; state = "
+            "8 rules, their conditions/paths/parts, 3 documents); executions are histories, none merged; state = "
             "identity-aware snapshot of the whole world (must stay the single initial state); non-trivial = "
             "history of >= 2 operations whose last result was compared with the fresh-object result. "
             "S: every schedule of 2 threads x 1-2 operations with <= k preemptions at line granularity",
@@ -55,6 +55,7 @@ class World:
             Rule(["m", "x"], Value.dtype.equal_to(int), cast=dict(INT)),
             Rule([MapValue(), "flag"], Value.dtype.equal_to(bool), cast=dict(BOOL)),
             Rule([0], Value.equal_to(3), cast=dict(INT)),
+            Rule([MapOrListValue(), "x"], Value.dtype.equal_to(int), cast=dict(INT)),
         ])
         self.s_path = Schema([
             Rule(self.pa, Value.equal_to(DataPath("b"))),
@@ -62,8 +63,9 @@ class World:
             Rule(["lst", ListValue()], (Value.dtype.equal_to(int) & a) | Value.equal_to("x")),
         ])
         self.rules = self.s_cast.rules + self.s_path.rules
-        self.d1 = {"m": {"x": "3", "flag": "true"}, "a": 1, "b": 1, "lo": 0, "lst": [1, "x", -2], "n": 4}
-        self.d2 = ["3", {"flag": "FALSE"}, [1, 2], 7]
+        self.d1 = {"m": {"x": "3", "flag": "true"}, "a": 1, "b": 1, "lo": 0, "lst": [1, "x", -2], "n": 4,
+                   "w": {"flag": "3", "x": "true"}}
+        self.d2 = ["3", {"flag": "FALSE"}, [1, 2], 7, {"flag": "3"}]
         self.d3 = Data({"a": 2, "b": [1, 2], "m": {"x": "abc"}})
         self.docs = [self.d1, self.d2, self.d3]
 
@@ -101,7 +103,7 @@ def menu():
         ops.append(("get part paths", di, lambda w, di=di: vsnap(DataPath(w.part).get_data(w.docs[di], return_paths=True))))
         ops.append(("validate cast", di, lambda w, di=di: obs_validated(w.s_cast.validate(w.docs[di]))))
         ops.append(("validate path", di, lambda w, di=di: obs_validated(w.s_path.validate(w.docs[di]))))
-        for ri in range(7):
+        for ri in range(8):
             ops.append(("test r%d" % ri, di, lambda w, di=di, ri=ri: obs_ruletest(w.rules[ri].test(w.docs[di]))))
     ops.append(("filter k", 0, lambda w: obs_filtered(w.k.filter(w.d1))))
     ops.append(("mpart.filter", 2, lambda w: obs_filtered(w.mpart.filter(w.d3))))
@@ -110,7 +112,7 @@ def menu():
     ops.append(("eq schemas", None, lambda w: (w.s_cast == w.s_cast, w.s_cast == w.s_path, w.rules[0] == w.rules[1],
                                                w.pa == DataPath("a"), w.ab == (w.b & w.a), w.part == w.mpart)))
     ops.append(("to_json_like", None, lambda w: vsnap([w.ab.to_json_like(), w.k.to_json_like(), w.pa.to_json_like(),
-                                                       w.rules[6].condition.to_json_like()])))
+                                                       w.rules[7].condition.to_json_like()])))
     ops.append(("len/rules", None, lambda w: (len(w.s_cast), len(w.s_path), len(w.s_cast.rules), len(w.rules[1].path))))
     ops.append(("to_tree", None, lambda w: len(w.s_path.to_tree())))
     ops.append(("repr", None, lambda w: (repr(w.s_cast.rules[0]), repr(w.part), repr(w.ab), repr(w.pa))))
